@@ -218,33 +218,48 @@ func c09(c *Ctx) {
 				continue
 			}
 			c.actorNil(a.execute, "per-fan actor")
-			Calls(a.execute, func(cc ssa.CallInstruction) {
-				call, ok := cc.(*ssa.Call)
-				if !ok || !isControllerCall(cc, "UpdateFanSpeed") {
-					return
-				}
-				key := c.FK(a.execute)
-				ev := errValueOfCall(call)
-				es := nilEdges(a.execute, ev, true)
-				if len(es) == 0 {
-					c.R.Bad("R-contain", key, key, c.P.Pos(call.Pos()), "the error of UpdateFanSpeed is not handled in the control goroutine")
-					return
-				}
-				bad := ""
-				ir.Search{}.Reach(edgeStarts(es), func(ins ssa.Instruction, via *ssa.BasicBlock) {
-					if what := c.crashSite(ins); what != "" {
-						bad = what + " at " + c.P.Pos(ins.Pos())
-					}
-					if r, ok := ins.(*ssa.Return); ok && len(r.Results) == 1 && !ir.IsNilConst(ir.ResultVia(r, 0, via)) {
-						bad = "the actor returns a possibly non-nil error at " + c.P.Pos(r.Pos())
+			// the cycle call may sit in a helper of the actor (one step of the loop extracted into a method)
+			holders := []*ssa.Function{a.execute}
+			seenH := map[*ssa.Function]bool{a.execute: true}
+			for i := 0; i < len(holders) && i < 8; i++ {
+				Calls(holders[i], func(cc ssa.CallInstruction) {
+					st := ir.Callee(cc).Static
+					if st != nil && !seenH[st] && len(st.Blocks) > 0 && load_FuncPkgPath(st) == PkgCtrl && !isControllerCall(cc, "UpdateFanSpeed") && st.Name() != "restorePwmEnabled" {
+						seenH[st] = true
+						holders = append(holders, st)
 					}
 				})
-				if bad != "" {
-					c.R.Bad("R-contain", key, key, c.P.Pos(call.Pos()), "a control-cycle error escapes: "+bad)
-				} else {
-					c.R.Ok("R-contain", key, key, c.P.Pos(call.Pos()), "from the error edge of UpdateFanSpeed no crash site is reachable and the actor returns the nil constant (restore: see C03 R-exit)")
-				}
-			})
+			}
+			for _, holder := range holders {
+				holder := holder
+				Calls(holder, func(cc ssa.CallInstruction) {
+					call, ok := cc.(*ssa.Call)
+					if !ok || !isControllerCall(cc, "UpdateFanSpeed") {
+						return
+					}
+					key := c.FK(a.execute)
+					ev := errValueOfCall(call)
+					es := nilEdges(holder, ev, true)
+					if len(es) == 0 {
+						c.R.Bad("R-contain", key, key, c.P.Pos(call.Pos()), "the error of UpdateFanSpeed is not handled in the control goroutine")
+						return
+					}
+					bad := ""
+					ir.Search{}.Reach(edgeStarts(es), func(ins ssa.Instruction, via *ssa.BasicBlock) {
+						if what := c.crashSite(ins); what != "" {
+							bad = what + " at " + c.P.Pos(ins.Pos())
+						}
+						if r, ok := ins.(*ssa.Return); ok && len(r.Results) == 1 && isErrorType(r.Results[0].Type()) && !ir.IsNilConst(ir.ResultVia(r, 0, via)) {
+							bad = "the actor returns a possibly non-nil error at " + c.P.Pos(r.Pos())
+						}
+					})
+					if bad != "" {
+						c.R.Bad("R-contain", key, key, c.P.Pos(call.Pos()), "a control-cycle error escapes: "+bad)
+					} else {
+						c.R.Ok("R-contain", key, key, c.P.Pos(call.Pos()), "from the error edge of UpdateFanSpeed no crash site is reachable and the actor returns the nil constant (restore: see C03 R-exit)")
+					}
+				})
+			}
 		}
 	}
 	for _, f := range c.ConvertedImplMethods(PkgInternal, "SensorMonitor", "Run") {
